@@ -46,3 +46,70 @@ func TString(t *ast.Type) string { panic("ghost") }
 //@ ensures[inverse] result != nil && TString(result) == RefString(response)
 //@ modifies fresh
 //@ end
+
+// ---- C07: the introspection resolvers run inside the per-operation closure of the HTTP handler: no instruction
+// of theirs may panic, whatever the (validated) selection set and the client's variables are ----
+
+//@ assume-nonnil-elems *ast.Field
+//@ assume-nonnil-elems *ast.Definition
+//@ assume-nonnil-elems *ast.FieldDefinition
+//@ assume-nonnil-elems *ast.ArgumentDefinition
+//@ assume-nonnil-elems *ast.EnumValueDefinition
+//@ assume-nonnil-elems *ast.DirectiveDefinition
+//@ assume-nonnil-elems *ast.Directive
+//@ assume-nonnil-elems *ast.Argument
+//@ assume-nonnil-field ast.Argument.Value
+
+//@ func (*IntrospectionResolver).resolveType
+//@ props C07
+//@ requires ir != nil && schema != nil
+//@ assumes[schema] forallT(k, string, has(schema.Types, k) ==> schema.Types[k] != nil)
+//@ end
+
+//@ func (*IntrospectionResolver).ResolveIntrospectionFields
+//@ props C07
+//@ requires ir != nil && schema != nil
+//@ assumes[schema] forallT(k, string, has(schema.Types, k) ==> schema.Types[k] != nil)
+//@ end
+
+//@ func (*IntrospectionResolver).resolveSchema
+//@ props C07
+//@ requires ir != nil && schema != nil
+//@ assumes[schema] forallT(k, string, has(schema.Types, k) ==> schema.Types[k] != nil) && forallT(k, string, has(schema.Directives, k) ==> schema.Directives[k] != nil)
+// the names that are looked up again after sorting are keys of the map they were collected from
+//@ loop 1 invariant[keys] fresh(typeNames) && forall(i, 0, len(typeNames), has(schema.Types, typeNames[i]))
+//@ loop 2 invariant[keys] forall(i, 0, len(typeNames), has(schema.Types, typeNames[i]))
+//@ loop 3 invariant[keys] fresh(directiveNames) && forall(i, 0, len(directiveNames), has(schema.Directives, directiveNames[i]))
+//@ loop 4 invariant[keys] forall(i, 0, len(directiveNames), has(schema.Directives, directiveNames[i]))
+//@ end
+
+//@ func (*IntrospectionResolver).resolveField
+//@ props C07
+//@ requires ir != nil && schema != nil && field != nil
+//@ assumes[schema] forallT(k, string, has(schema.Types, k) ==> schema.Types[k] != nil)
+//@ end
+
+//@ func (*IntrospectionResolver).resolveDirective
+//@ props C07
+//@ requires ir != nil && schema != nil && directive != nil
+//@ assumes[schema] forallT(k, string, has(schema.Types, k) ==> schema.Types[k] != nil)
+//@ end
+
+//@ func (*IntrospectionResolver).resolveInputValue
+//@ props C07
+//@ requires ir != nil && schema != nil && arg != nil
+//@ assumes[schema] forallT(k, string, has(schema.Types, k) ==> schema.Types[k] != nil)
+//@ end
+
+//@ func resolveEnumValue
+//@ props C07
+//@ requires enum != nil
+//@ end
+
+//@ func hasDeprecatedDirective
+//@ props C07
+//@ end
+
+//@ func sortPayload
+//@ props C07
+//@ end
